@@ -376,7 +376,10 @@ DTDValidator::validateAttrValue(const   XMLAttDef*      attDef
             //  the notation pool (after the DTD is parsed), then obviously
             //  this value will be legal since it matches one of them.
             //
-            if (!XMLString::isInList(pszTmpVal, enumList))
+            //  The list is missing if the declaration's token list could
+            //  not be scanned and the scan went on after that fatal error.
+            //
+            if (!enumList || !XMLString::isInList(pszTmpVal, enumList))
                 emitError(XMLValid::DoesNotMatchEnumList, pszTmpVal, fullName);
         }
 
